@@ -195,8 +195,11 @@ def build_cases(ck, T, cov):
         if len(b) < 20000:
             cases.append((0, -1, b, 'repo-data'))
             cases.append((1, -1, b, 'repo-data'))
-    for fam in (G.error_class_family(T), G.hostile_count_family(T), G.cumulative_header_family(), G.suffix_all_items_family(),
-                G.builder_header_family()):
+    fams = (G.error_class_family(T), G.hostile_count_family(T), G.cumulative_header_family(), G.suffix_all_items_family(),
+            G.builder_header_family())
+    if os.environ.get('C02_NO_R3_FAMILIES'):      # coverage baseline: the stream as it was before round 3
+        fams = (G.hostile_count_family(T), G.cumulative_header_family(), G.suffix_all_items_family())
+    for fam in fams:
         for k, (mode, d, tag) in enumerate(fam):
             cases.append((k % 2 if not tag.startswith('hostile-count') else 0, -1, d, tag))
             cov[tag] = cov.get(tag, 0) + 1
